@@ -1,6 +1,7 @@
 import AtreeModel.Map.Dump
 import AtreeModel.StorageOps
 import AtreeModel.Replay.Common
+import AtreeModel.Verify.MapCorrupt
 /- Replays the map streams of the harness on the model. -/
 namespace Atree.Replay
 open Atree
@@ -17,6 +18,11 @@ structure MapState where
   store : St String String := St.init
   snapMaps : AList Nat (Σ r, OMap r) := []
   snapAux : AList SlabID Elem := []
+  -- the digests of every key met so far (the digester, as far as the trace shows it), for the
+  -- model's transcription of VerifyMap
+  keys : AList (Nat × Nat) (List Nat) := []
+  -- verifybadmap stream: the map as it was before the `BAD` lines of the current experiment
+  saved : AList Nat (Σ r, OMap r) := []
 
 def mapDumpCodec : Codec String String := { enc := some, dec := fun _ b => some b, size := fun _ => 0 }
 
@@ -83,6 +89,10 @@ def applyOp (s : MapState) (name : String) (fs : List (String × String)) (lineN
     let c := s.ctxFor m.addr
     let s := { s with rep := { s.rep with ops := s.rep.ops + 1 } }
     let key := (fget fs "k").bind parseKey
+    let s := match key with
+      | some k => if AList.contains s.keys (k.size, k.pay) then s
+                  else { s with keys := (((k.size, k.pay), k.digs)) :: s.keys }
+      | none => s
     let val : Option Elem := (fget fs "v").bind parseSizePay |>.map (fun p => { size := p.1, pay := .val p.2 })
     match name with
     | "mset" =>
@@ -131,6 +141,53 @@ def stepLine (s : MapState) (line : String) (lineNo : Nat) : MapState :=
   let s := { s with rep := { s.rep with lines := s.rep.lines + 1 } }
   match ws with
   | "CFG" :: rest => { T := (fnat (fields rest) "T").getD 1024, rep := s.rep }
+  | "BAD" :: rest =>
+    -- one field overwritten on the implementation side (verifybadmap stream)
+    let fs := fields rest
+    let h := (fnat fs "h").getD 0
+    match (AList.find? s.maps h : Option (Σ r, OMap r)) with
+    | some ⟨r, m⟩ =>
+      let id := ((fget fs "id").bind parseID).getD SlabID.undef
+      let nid := ((fget fs "nid").bind parseID).getD SlabID.undef
+      let path := match fget fs "p" with
+        | some p => if p.isEmpty then [] else (p.splitOn ".").filterMap String.toNat?
+        | none => []
+      match Verify.corruptMap m id ((fget fs "f").getD "") path ((fnat fs "i").getD 0) ((fnat fs "j").getD 0)
+              ((fnat fs "v").getD 0) nid with
+      | some m' =>
+        { s with maps := AList.insert s.maps h ⟨r, m'⟩,
+                 saved := if AList.contains s.saved h then s.saved else AList.insert s.saved h ⟨r, m⟩ }
+      | none => s.note s!"line {lineNo}: unknown corruption {line}"
+    | none => s.note s!"line {lineNo}: BAD for unknown handle"
+  | "UNDO" :: rest =>
+    let h := (fnat (fields rest) "h").getD 0
+    match (AList.find? s.saved h : Option (Σ r, OMap r)) with
+    | some x => { s with maps := AList.insert s.maps h x, saved := AList.erase s.saved h }
+    | none => s
+  | "VFY" :: rest =>
+    -- the verdict of the Go verifier (`VerifyMap`), to be matched by its transcription
+    let fs := fields rest
+    let h := (fnat fs "h").getD 0
+    match (AList.find? s.maps h : Option (Σ r, OMap r)), AList.find? s.cfgs h with
+    | some ⟨_, m⟩, some cfg =>
+      let baseIds := match (AList.find? s.saved h : Option (Σ r, OMap r)) with
+        | some ⟨_, b⟩ => Verify.mapTreeIds b.d b.root
+        | none => Verify.mapTreeIds m.d m.root
+      let baseAddr := match (AList.find? s.saved h : Option (Σ r, OMap r)) with
+        | some ⟨_, b⟩ => b.addr
+        | none => m.addr
+      let gone := (fget fs "nostore").bind parseID
+      let keys := s.keys
+      let v : Verify.MVerifier :=
+        { T := s.T, L := cfg.L, address := (fnat fs "addr").getD baseAddr,
+          inStorage := fun id => baseIds.any (fun x => decide (x = id)) && !(decide (gone = some id)),
+          dg := fun p => (AList.find? keys p).getD [] }
+      let mine := Verify.renderMapResult (Verify.verifyMap v (fnat fs "ty") m)
+      let theirs := (fget fs "r").getD "?"
+      let s := { s with rep := ({ s.rep with compared := s.rep.compared + 1 }).tag ("vfy:" ++ mine) }
+      if mine == theirs then s
+      else s.note s!"line {lineNo}: verifier verdicts differ\n  model: {mine}\n  impl : {theirs}"
+    | _, _ => s.note s!"line {lineNo}: VFY for unknown handle"
   | "MNEW" :: rest =>
     let fs := fields rest
     let h := (fnat fs "h").getD 0
